@@ -23,7 +23,7 @@ def _setlook(i):
             cur = e['obs']['look'][i]
         except (KeyError, IndexError, TypeError):
             return None
-        if e.get('target') in ('word', 'ws'):
+        if e.get('target') in ('word', 'ws', 'word0', 'ws0'):
             return None
         cur[1] = 'B' if cur[1] != 'B' else 'A'
         return e
